@@ -19,6 +19,15 @@ class PyMod:
             self.tree = ast.parse(self.source, filename=path)
         except SyntaxError as e:
             raise AnalysisError('cannot parse %s: %s' % (path, e))
+        # statements that do nothing are not part of what the rules look at: `pass` next to other statements, and bare
+        # constant expressions (docstrings) -- adding or removing them changes no behaviour
+        for n in ast.walk(self.tree):
+            for fld in ('body', 'orelse', 'finalbody'):
+                b = getattr(n, fld, None)
+                if isinstance(b, list) and b and all(isinstance(x, ast.stmt) for x in b):
+                    keep = [x for x in b if not isinstance(x, ast.Pass) and not (isinstance(x, ast.Expr) and isinstance(x.value, ast.Constant))]
+                    if keep and len(keep) != len(b):
+                        b[:] = keep
         self.parents = {}
         for n in ast.walk(self.tree):
             for c in ast.iter_child_nodes(n):
